@@ -258,7 +258,9 @@ func Eval(c Case) evid.Verdict {
 			h := spnego.SPNEGOKRB5Authenticate(inner, kt, opts...)
 			req := httptest.NewRequest("GET", "http://svc.example.com/", nil)
 			req.RemoteAddr = "pipe" // unparsable: no client address configured
-			if q.AP.ClientAddr != "" {
+			if q.AP.ClientAddr == "V6" {
+				req.RemoteAddr = "[2001:db8::a01:101]:4321"
+			} else if q.AP.ClientAddr != "" {
 				a := c01.AddrBytes(q.AP.ClientAddr)
 				req.RemoteAddr = fmt.Sprintf("%d.%d.%d.%d:4321", a[0], a[1], a[2], a[3])
 			}
@@ -430,7 +432,7 @@ func apiLevel(q Req, kt *keytab.Keytab, opts []func(*service.Settings), exp c01.
 }
 
 func hostAddr(n string) types.HostAddress {
-	return types.HostAddress{AddrType: 2, Address: c01.AddrBytes(n)}
+	return types.HostAddress{AddrType: c01.AddrType(n), Address: c01.AddrBytes(n)}
 }
 
 func innerOf(q Req) []byte {
@@ -449,7 +451,7 @@ func innerOf(q Req) []byte {
 func drawAP(t *rapid.T, seed uint64, et int32) c01.Case {
 	c := c01.Base(et, seed, "HTTP/svc.example.com")
 	c.ApplySettings(rapid.SampledFrom([]int{0, 0, 10, 3600}).Draw(t, "skew"), rapid.IntRange(0, 5).Draw(t, "requireaddr") == 0,
-		rapid.SampledFrom([]string{"", "", "A", "C"}).Draw(t, "clientaddr"),
+		rapid.SampledFrom([]string{"", "", "A", "C", "V6"}).Draw(t, "clientaddr"),
 		rapid.SampledFrom([]string{"", "", "", "alt", "missing"}).Draw(t, "ktprinc"), rapid.Bool().Draw(t, "decodepac"))
 	nd := rapid.SampledFrom([]int{0, 0, 0, 1, 1, 2}).Draw(t, "ndefects")
 	ds := []string{}
